@@ -424,6 +424,25 @@ def run_race(prop_id, tier, seed, replay=None):
         shutil.rmtree(sc, ignore_errors=True)
 
 
+def merge_evidence(prop_id, cov, rc=0):
+    """Convenience for the calling check: adds this slice's measured coverage to the evidence file the
+    check has just written (as headerstore.multi_store does for the BlockManager run)."""
+    fn = os.path.join(os.environ.get("VERIF_EVIDENCE_DIR", os.path.join(core.VERIF, "evidence")), prop_id + ".json")
+    ev = json.load(open(fn))
+    c = ev["coverage"]
+    c["reader_writer_slice_hsrace"] = {k: v for k, v in cov.items() if k not in ("samples", "assumptions", "scenarios")}
+    c["states"] += cov["states"]
+    c["transitions"] += cov["transitions"]
+    c["traces_validated_against_impl"] += cov["traces_validated_against_impl"]
+    c["samples"] = list(c.get("samples", [])) + cov["samples"][:2]
+    ev["assumptions"] = list(ev.get("assumptions", [])) + [a for a in ASSUMPTIONS if a not in ev.get("assumptions", [])]
+    ev["violations"] = ev.get("violations", 0) + cov["new_violations"]
+    ev["wall_s"] = round(ev.get("wall_s", 0) + cov["wall_s"], 2)
+    json.dump(ev, open(fn + ".tmp", "w"), indent=1)
+    os.replace(fn + ".tmp", fn)
+    return rc
+
+
 if __name__ == "__main__":
     # python3 -m vlib.families.hsrace C07 quick 1 [replay.json]
     pid = sys.argv[1] if len(sys.argv) > 1 else "C07"
